@@ -19,10 +19,10 @@ Proof.
 Qed.
 
 Lemma prim_mono i p s q :
-  Bnd i s -> Coherent s -> pvalid i p s -> psafe p s -> okq q -> kv_ok q p ->
+  Bnd i s -> Coherent s -> pvalid i p s -> psafe p s -> okq q ->
   idx q s <= idx q (papply i p s).
 Proof.
-  intros HBnd HC Hv Hs Hq Hok. pose proof (bnd_index _ _ HBnd) as HB. destruct Hq as [q Hq|q Hq|n|name wc q Hq].
+  intros HBnd HC Hv Hs Hq. pose proof (bnd_index _ _ HBnd) as HB. destruct Hq as [q Hq|q Hq|n|name wc q Hq].
   - apply tab_mono; assumption.
   - apply kv_mono; assumption.
   - apply node_services_mono; assumption.
@@ -30,10 +30,10 @@ Proof.
 Qed.
 
 Lemma prim_changed i p s q :
-  Bnd i s -> Coherent s -> pvalid i p s -> psafe p s -> okq q -> kv_ok q p ->
+  Bnd i s -> Coherent s -> pvalid i p s -> psafe p s -> okq q ->
   res q s <> res q (papply i p s) -> i <= idx q (papply i p s).
 Proof.
-  intros HBnd HC Hv Hs Hq Hok Hc. pose proof (bnd_index _ _ HBnd) as HB. destruct Hq as [q Hq|q Hq|n|name wc q Hq].
+  intros HBnd HC Hv Hs Hq Hc. pose proof (bnd_index _ _ HBnd) as HB. destruct Hq as [q Hq|q Hq|n|name wc q Hq].
   - rewrite (tab_changed i p s q HB Hq Hc). lia.
   - apply kv_changed; assumption.
   - rewrite (node_services_changed i p s n HB Hv Hc). lia.
@@ -42,21 +42,21 @@ Qed.
 
 (* ---------- a whole trace ---------- *)
 Lemma run_mono i ps s q :
-  Bnd i s -> Coherent s -> Valid i ps s -> Safe i ps s -> okq q -> Forall (kv_ok q) ps ->
+  Bnd i s -> Coherent s -> Valid i ps s -> Safe i ps s -> okq q ->
   idx q s <= idx q (prun i ps s).
 Proof.
-  revert s. induction ps as [|p ps IH]; intros s HBnd HC HV HS Hq Hok; [cbn; lia|].
-  destruct HV as [Hv HV], HS as [Hs HS]. apply Forall_cons in Hok as [Hk Hok]. rewrite prun_cons.
+  revert s. induction ps as [|p ps IH]; intros s HBnd HC HV HS Hq; [cbn; lia|].
+  destruct HV as [Hv HV], HS as [Hs HS]. rewrite prun_cons.
   etransitivity; [apply (prim_mono i p s q); assumption|].
   apply IH; try assumption; [apply Bnd_papply; assumption|eapply Coherent_papply; eassumption].
 Qed.
 
 Lemma run_changed i ps s q :
-  Bnd i s -> Coherent s -> Valid i ps s -> Safe i ps s -> okq q -> Forall (kv_ok q) ps ->
+  Bnd i s -> Coherent s -> Valid i ps s -> Safe i ps s -> okq q ->
   res q s <> res q (prun i ps s) -> i <= idx q (prun i ps s).
 Proof.
-  revert s. induction ps as [|p ps IH]; intros s HBnd HC HV HS Hq Hok Hc; [contradiction Hc; reflexivity|].
-  destruct HV as [Hv HV], HS as [Hs HS]. apply Forall_cons in Hok as [Hk Hok]. rewrite prun_cons in *.
+  revert s. induction ps as [|p ps IH]; intros s HBnd HC HV HS Hq Hc; [contradiction Hc; reflexivity|].
+  destruct HV as [Hv HV], HS as [Hs HS]. rewrite prun_cons in *.
   assert (HBnd1 : Bnd i (papply i p s)) by (apply Bnd_papply; assumption).
   assert (HC1 : Coherent (papply i p s)) by (eapply Coherent_papply; eassumption).
   destruct (decide (res q s = res q (papply i p s))) as [Heq|Hne].
@@ -130,32 +130,18 @@ Proof.
   - destruct (trace_ok i c s ps Et Hr) as [HV HS]. apply Coherent_prun; [exact HC|exact HV|apply HS, Hs].
 Qed.
 
-(* ---------- the hypotheses that exclude the refuted classes, on (query, command) ---------- *)
-(* a delete-tree on a strictly shorter prefix than the listed one is excluded *)
-Definition cmd_kv_ok (q : query) (c : cmd) : Prop :=
-  match c with
-  | KVDeleteTree p' => kv_ok q (PKvDelTree p')
-  | _ => True
-  end.
-Definition safe_query (q : query) (c : cmd) : Prop := okq q /\ cmd_kv_ok q c.
-
-Lemma trace_kv_ok i c s ps q : trace i c s = Some ps -> cmd_kv_ok q c -> Forall (kv_ok q) ps.
-Proof.
-  intros Et Hok. destruct (deltree_dec c) as [[p' ->]|Hn].
-  - cbn in Et. injection Et as <-. unfold kvs_delete_tree. destruct (bool_decide _); repeat constructor. exact Hok.
-  - eapply Forall_impl; [eapply trace_notree; [exact Et|exact Hn]|].
-    intros p Hp. destruct p; try contradiction; destruct q; exact I.
-Qed.
+(* ---------- the queries of the proved families ---------- *)
+Definition safe_query (q : query) : Prop := okq q.
 
 Lemma res_reap i u s q : res q (papply i (PReap u) s) = res q s.
 Proof. destruct q; reflexivity. Qed.
 
 (* ---------- the theorems ---------- *)
 Theorem never_missed_index hi s i c q :
-  Reach hi s -> Coherent s -> hi < i -> safe_cmd c s -> safe_query q c ->
+  Reach hi s -> Coherent s -> hi < i -> safe_cmd c s -> safe_query q ->
   res q (apply i c s) <> res q s -> idx q s < idx q (apply i c s).
 Proof.
-  intros HR HC Hlt Hs [Hq Hok] Hc.
+  intros HR HC Hlt Hs Hq Hc.
   pose proof (Reach_Bnd _ _ HR) as HBhi.
   assert (HBnd : Bnd i s) by (eapply Bnd_mono; [|exact HBhi]; lia).
   pose proof (okq_idx_le hi s q HBhi Hq) as Hle.
@@ -163,15 +149,15 @@ Proof.
   destruct (reap_dec c) as [[u ->]|Hr].
   { cbn in Et. injection Et as <-. cbn [prun foldl] in Hc. rewrite res_reap in Hc. contradiction Hc; reflexivity. }
   destruct (trace_ok i c s ps Et Hr) as [HV HS].
-  pose proof (run_changed i ps s q HBnd HC HV (HS Hs) Hq (trace_kv_ok i c s ps q Et Hok)) as H.
+  pose proof (run_changed i ps s q HBnd HC HV (HS Hs) Hq) as H.
   assert (i <= idx q (prun i ps s)) by (apply H; intros Heq; apply Hc; rewrite Heq; reflexivity). lia.
 Qed.
 
 Theorem never_missed_fires hi s i c q :
-  Reach hi s -> Coherent s -> hi < i -> safe_cmd c s -> safe_query q c ->
+  Reach hi s -> Coherent s -> hi < i -> safe_cmd c s -> safe_query q ->
   res q (apply i c s) <> res q s -> fires (ws q s) (touched i c s) = true.
 Proof.
-  intros HR HC Hlt Hs [Hq Hok] Hc. unfold touched.
+  intros HR HC Hlt Hs Hq Hc. unfold touched.
   destruct (decide (csn_optimised q s)) as [Hopt|Hopt].
   2: { apply fires_pure; [exact Hq|exact Hopt|]. intros Heq. apply Hc. rewrite Heq. reflexivity. }
   (* the optimised CheckServiceNodes watch: only the service.<name> row *)
@@ -196,15 +182,15 @@ Proof.
 Qed.
 
 Theorem monotone_index hi s i c q :
-  Reach hi s -> Coherent s -> hi < i -> safe_cmd c s -> safe_query q c -> (forall u, c <> Reap u) ->
+  Reach hi s -> Coherent s -> hi < i -> safe_cmd c s -> safe_query q -> (forall u, c <> Reap u) ->
   idx q s <= idx q (apply i c s).
 Proof.
-  intros HR HC Hlt Hs [Hq Hok] Hr.
+  intros HR HC Hlt Hs Hq Hr.
   pose proof (Reach_Bnd _ _ HR) as HBhi.
   assert (HBnd : Bnd i s) by (eapply Bnd_mono; [|exact HBhi]; lia).
   unfold apply. destruct (trace i c s) as [ps|] eqn:Et; [|lia].
   destruct (trace_ok i c s ps Et Hr) as [HV HS].
-  apply run_mono; try assumption; [apply HS, Hs|eapply trace_kv_ok; eassumption].
+  apply run_mono; try assumption. apply HS, Hs.
 Qed.
 
 Theorem nonzero_reported q s : 1 <= reported q s.
@@ -283,20 +269,20 @@ Qed.
 
 (* with the floor: Raft never hands index 1 to a client write *)
 Theorem never_missed_reported hi s i c q :
-  Reach hi s -> Coherent s -> hi < i -> 1 < i -> safe_cmd c s -> safe_query q c ->
+  Reach hi s -> Coherent s -> hi < i -> 1 < i -> safe_cmd c s -> safe_query q ->
   res q (apply i c s) <> res q s -> reported q s < reported q (apply i c s).
 Proof.
   intros HR HC Hlt H1 Hs Hq Hc.
   pose proof (never_missed_index hi s i c q HR HC Hlt Hs Hq Hc) as Hidx.
-  pose proof (okq_idx_le hi s q (Reach_Bnd _ _ HR) (proj1 Hq)) as Hle.
+  pose proof (okq_idx_le hi s q (Reach_Bnd _ _ HR) Hq) as Hle.
   assert (i <= idx q (apply i c s)).
-  { destruct Hq as [Hq Hok]. pose proof (Reach_Bnd _ _ HR) as HBhi.
+  { pose proof (Reach_Bnd _ _ HR) as HBhi.
     assert (HBnd : Bnd i s) by (eapply Bnd_mono; [|exact HBhi]; lia).
     unfold apply in *. destruct (trace i c s) as [ps|] eqn:Et; [|contradiction Hc; reflexivity].
     destruct (reap_dec c) as [[u ->]|Hr].
     { cbn in Et. injection Et as <-. cbn [prun foldl] in Hc. rewrite res_reap in Hc. contradiction Hc; reflexivity. }
     destruct (trace_ok i c s ps Et Hr) as [HV HS].
-    apply (run_changed i ps s q HBnd HC HV (HS Hs) Hq (trace_kv_ok i c s ps q Et Hok)).
+    apply (run_changed i ps s q HBnd HC HV (HS Hs) Hq).
     intros Heq; apply Hc; rewrite Heq; reflexivity. }
   unfold reported. lia.
 Qed.
